@@ -301,6 +301,12 @@ func (p *peer) act(c net.Conn, pc *peerCipher, b behaviour) bool {
 		if _, err := c.Write(ct); err != nil {
 			return false
 		}
+	case "slow":
+		// answer after b.k milliseconds
+		time.Sleep(time.Duration(b.k) * time.Millisecond)
+		if _, err := c.Write(enc(frameBytes(b.items, true, now.Unix(), int32(now.Nanosecond())))); err != nil {
+			return false
+		}
 	case "okThenReset":
 		// answer, then drop the connection abortively (RST instead of FIN)
 		c.Write(enc(frameBytes(b.items, true, now.Unix(), int32(now.Nanosecond()))))
